@@ -305,15 +305,18 @@ Proof. induction st as [|l st IH]; intros c h Hc; cbn [serve run_handler]; [rewr
   rewrite IH; [reflexivity|]. unfold caps_through. destruct (is_buffer (lkind l)); exact Hc. Qed.
 
 (* ---------- decisiveness ---------- *)
-Definition documented_status (k : kind) : Z :=
-  match k with KConn | KRate => 429 | KBreaker => 503 | KRR | KReb => 500 | KBuffer => 413 | _ => 0 end.
+(* the breaker's fallback is configurable: the library's response fallback (503 here) or its redirect fallback (302) *)
+Definition documented_status (l : layer) : Z :=
+  match lkind l with KConn | KRate => 429 | KBreaker => if sticky l then 302 else 503 | KRR | KReb => 500 | KBuffer => 413 | _ => 0 end.
 
-Lemma answer_nf k : can_intervene k = true ->
-  exists hs bs, answer k = nf hs (Some (documented_status k)) [Some bs] /\ bs <> [].
-Proof. destruct k; cbn; intros H; try discriminate.
+Lemma answer_nf l : can_intervene (lkind l) = true ->
+  exists hs bs, answer l = nf hs (Some (documented_status l)) [Some bs] /\ bs <> [].
+Proof. unfold answer, documented_status. destruct (lkind l); cbn; intros H; try discriminate.
   - exists [], [1]. split; [reflexivity|discriminate].
   - exists [(1001, 0); (1002, 0)], [2]. split; [reflexivity|discriminate].
-  - exists [], [3]. split; [reflexivity|discriminate].
+  - destruct (sticky l).
+    + exists [(1003, 0)], [6]. split; [reflexivity|discriminate].
+    + exists [], [3]. split; [reflexivity|discriminate].
   - exists [], [4]. split; [reflexivity|discriminate].
   - exists [], [4]. split; [reflexivity|discriminate].
   - exists [], [5]. split; [reflexivity|discriminate]. Qed.
@@ -324,17 +327,17 @@ Theorem decisive pre l post h :
   Forall passive pre -> intervenes l = true -> can_intervene (lkind l) = true ->
   snd (serve (pre ++ l :: post) full h) = 0 /\
   let v := client_view (fst (serve (pre ++ l :: post) full h)) in
-  v_hijacked v = false /\ v_status v = documented_status (lkind l) /\ v_body v <> [].
+  v_hijacked v = false /\ v_status v = documented_status l /\ v_body v <> [].
 Proof. intros Hp Hi Hc.
-  destruct (answer_nf (lkind l) Hc) as (hs0 & bs0 & Ea & Hbs).
+  destruct (answer_nf l Hc) as (hs0 & bs0 & Ea & Hbs).
   assert (G : forall pre0, Forall passive pre0 -> forall c, exists hs s ws,
-            serve (pre0 ++ l :: post) c h = (nf hs s ws, 0) /\ st_val s = documented_status (lkind l) /\ bodies ws = bs0).
+            serve (pre0 ++ l :: post) c h = (nf hs s ws, 0) /\ st_val s = documented_status l /\ bodies ws = bs0).
   { induction 1 as [|x pre0 Hx _ IH]; intros c; cbn [app serve].
     - rewrite Hi, Hc. cbn [andb]. rewrite Ea. eexists _, _, _. split; [reflexivity|]. split; [reflexivity|]. cbn. apply app_nil_r.
     - unfold passive in Hx. rewrite Hx. destruct (IH (caps_through (lkind x) c)) as (hs & s & ws & E & Hs & Hb). rewrite E.
       unfold transform. destruct (is_buffer (lkind x)).
       + rewrite buffered_nf, own_nf. eexists _, _, _. split; [reflexivity|]. split; [|rewrite squash_bodies; exact Hb].
-        cbn [st_val]. rewrite code_of_val, Hs. destruct (lkind l); cbn in *; try discriminate; reflexivity.
+        cbn [st_val]. rewrite code_of_val, Hs. unfold documented_status. destruct (lkind l); cbn in *; try discriminate; try reflexivity. destruct (sticky l); reflexivity.
       + rewrite own_nf. eexists _, _, _. split; [reflexivity|]. split; [exact Hs|exact Hb]. }
   destruct (G pre Hp full) as (hs & s & ws & E & Hs & Hb). rewrite E. cbn [fst snd]. split; [reflexivity|].
   rewrite client_view_nf. cbn [v_hijacked v_status v_body]. split; [reflexivity|]. split; [exact Hs|]. rewrite Hb. exact Hbs. Qed.
